@@ -34,6 +34,8 @@ var zzC14Alpha = [][]zzHostOp{
 	},
 }
 
+var zzHostTraps = []string{"b.co:\u0668\u0660", "x.b.co:\u0661", "c.d:\uff18", "a1.e:8\u0660", "q.e:\u00b2", "api.b.co:\u0967"}
+
 // zzC14Setup: operations applied before the explored history.
 var zzC14Setup = [][]zzHostOp{nil, nil, {{0, []string{"a1.e", "b2.e", "c3.e", "d4.e", "e5.e", "{w}.e"}}, {0, []string{"fox.e", "fig.e"}}}, nil}
 
@@ -79,8 +81,15 @@ func ZZC14(n int) {
 		}
 	}
 	zzv.Cover("host-history")
-	host := zzv.Bytes("h", n%100)
-	zzv.Assume(zzASCII(host))
+	// every ASCII host of the bound, or one of a few concrete hosts whose port consists of
+	// non-ASCII digits (an invalid port: nothing is stripped, no domain resolves)
+	var host string
+	if t := zzv.Choice("trap", 1+len(zzHostTraps)); t > 0 {
+		host = zzHostTraps[t-1]
+	} else {
+		host = zzv.Bytes("h", n%100)
+		zzv.Assume(zzASCII(host))
+	}
 	req := zzReq("GET", "/")
 	req.Host = host
 	ctx := types.NewContext()
